@@ -201,6 +201,10 @@ bool splinetable<Alloc>::read_fits_core(fitsfile* fits, const std::string& fileP
 			throw std::runtime_error("Unable to read table dimension from "+filePath);
 		if (temp_dim < 1)
 			throw std::runtime_error("Invalid table dimension "+std::to_string(temp_dim));
+		//cfitsio's pixel interface (fits_read_pix) addresses an image through
+		//arrays of 9 axis lengths
+		if (temp_dim > 9)
+			throw std::runtime_error("Tables with more than 9 dimensions ("+std::to_string(temp_dim)+") cannot be read");
 		ndim = temp_dim;
 	}
 	
